@@ -116,6 +116,10 @@ def _find_in(node, name):
                 stack = list(n.orelse) + stack
             elif t == "not cython.compiled":
                 stack = list(n.body) + stack
+            elif t in ("TYPE_CHECKING", "typing.TYPE_CHECKING"):
+                stack = list(n.orelse) + stack      # the typing-only arm never runs
+            elif t in ("not TYPE_CHECKING", "not typing.TYPE_CHECKING"):
+                stack = list(n.body) + stack
             else:
                 stack = list(n.body) + list(n.orelse) + stack
         elif isinstance(n, ast.Try):
